@@ -78,6 +78,15 @@ CHECKS['C19'] = dict(
     note=TB + "Not decided: which concrete file wins in a concrete directory tree (symlinks, canonicalisation), i.e. filesystem behaviour.",
     tech="static analysis: typestate ordering by must-precede/must-follow on the CFG, sibling agreement of the two resolvers' extracted root sequences")
 
+CHECKS['C18'] = dict(
+    text="Every channel by which one shot could influence the next is closed structurally: fresh evaluator local per loop iteration and "
+         "single-use guard in execute; no mutable static storage (frozen list {rng}); nothing reachable from execute mutates the shared "
+         "syntax tree (one frozen exception whose guard and analyser premise are checked as path rules); analysis runs once before the "
+         "loop; no static data members in the runtime records.",
+    note=TB + "The RNG is deliberately excluded (draws are a parameter of the property). Equality of a shot with a fresh parse-analyse-run "
+         "is argued from the absence of carried state, not by comparing executions.",
+    tech="static analysis: scope/lifetime of the evaluator object, static-storage whitelist, AST write/mutating-call reachability from execute (who-writes), path rule for the analyser premise")
+
 NOT_YET = "check not yet built in this round (framework under construction; see DESIGN.md §4 for the planned static rules)"
 
 
